@@ -25,9 +25,9 @@ Definition mm_int_route (dev_cuda dev_cpu ge24 a_qint8 w_qint8 : bool) (tokens i
 
 (* fingerprints of the numeric route bodies the exact-arithmetic model (Proofs/MMProofs.v) was written against *)
 Definition mm_prints : list (string * string) := [
-  ("qbytes_mm"%string, "9857a99cb5a3f03e"%string);
-  ("qbytes_int_mm"%string, "fa2242f24d4c6d82"%string);
-  ("qbytes_int8pack_mm"%string, "3af7658212612eb6"%string);
+  ("qbytes_mm"%string, "64a2805c47dd2cf8"%string);
+  ("qbytes_int_mm"%string, "0a0ced4b92c647de"%string);
+  ("qbytes_int8pack_mm"%string, "a57519cf4fd11f5a"%string);
   ("qbytes_mm_impl_default"%string, "5d41f850f7a5b9d8"%string);
   ("aten.mm"%string, "a3e340b614bd939e"%string);
   ("aten.bmm"%string, "3eb1ab1fb152c011"%string);
